@@ -347,6 +347,9 @@ func checkC20(c *Ctx) {
 		f.ruleHelperGates("C20-T12")
 		conservationRules(f, "C20-T12", consOpts{returns: true, fetchO: fetchOpts{leaderOK: true, skipPairing: true}})
 	}
+	// T13: "accepted by exactly its own decoder family" includes that the family decoder does not refuse
+	// a message of its own types for a reason outside the standard's list: all rules of C04
+	c.Compose(checkC04, "C04", "C20-T13")
 	c.MinInstances("C20-T8", 19)
 	c.MinInstances("C20-T1", 2)
 	c.MinInstances("C20-T2", 3)
